@@ -197,7 +197,13 @@ class ExprParser:
             if v not in self.env:
                 self.fail("unknown identifier %r (known: %s)" % (v, ", ".join(sorted(self.env))))
             t = self.env[v]
-            return "((%s : Int) : Rat)" % t if self.mode == "Rat" and not t.startswith("(rat)") else t.replace("(rat)", "")
+            if t.startswith("(rat)"):
+                if self.mode != "Rat":
+                    self.fail("floating-point keyword inside an integer expression")
+                self.last_int = False
+                return t[5:]
+            t = t[5:] if t.startswith("(int)") else t
+            return "((%s : Int) : Rat)" % t if self.mode == "Rat" else t
         if (k, v) == ("op", "("):
             e = self.sum()
             if self.take() != ("op", ")"):
@@ -267,7 +273,59 @@ METHOD_FILES = [   # (Lean constructor, C++ class prefix, header)
     ("tsne", "tDistributedStochasticNeighborEmbedding", "tsne.hpp"),
     ("ms", "ManifoldSculpting", "manifold_sculpting.hpp"),
 ]
-CHECK = re.compile(r"parameters\[(\w+)\]\s*\.checked\(\)\s*\.satisfies\(\s*(\w+)\s*<\s*(\w+)\s*>\s*\((.*?)\)\s*\)\s*\.orThrow\(\)")
+CHECK_HEAD = re.compile(r"parameters\[(\w+)\]\s*\.checked\(\)\s*\.satisfies\(\s*(\w+)\s*<\s*(\w+)\s*>\s*\(")
+CHECK_TAIL = re.compile(r"\s*\)\s*\.orThrow\(\)")
+
+
+class CheckMatch:
+    def __init__(self, s, start, end, groups):
+        self.s, self._start, self._end, self.g = s, start, end, groups
+
+    def group(self, i):
+        return self.s[self._start:self._end] if i == 0 else self.g[i - 1]
+
+    def start(self):
+        return self._start
+
+    def end(self):
+        return self._end
+
+
+class CHECK:
+    """`parameters[kw].checked().satisfies(Pred<T>(args)).orThrow()` with balanced parentheses inside args"""
+
+    @staticmethod
+    def _at(s, m):
+        end = balanced_end(s, m.end() - 1)
+        t = CHECK_TAIL.match(s, end)
+        if not t:
+            return None
+        return CheckMatch(s, m.start(), t.end(), (m.group(1), m.group(2), m.group(3), s[m.end():end - 1]))
+
+    @staticmethod
+    def match(s, pos=0):
+        m = CHECK_HEAD.match(s, pos)
+        return CHECK._at(s, m) if m else None
+
+    @staticmethod
+    def search(s, pos=0):
+        m = CHECK_HEAD.search(s, pos)
+        while m:
+            r = CHECK._at(s, m)
+            if r:
+                return r
+            m = CHECK_HEAD.search(s, m.end())
+        return None
+
+    @staticmethod
+    def finditer(s):
+        pos = 0
+        while True:
+            r = CHECK.search(s, pos)
+            if not r:
+                return
+            yield r
+            pos = r.end()
 
 
 def split_args(s):
@@ -287,7 +345,60 @@ def split_args(s):
     return args
 
 
-def check_to_lean(kw, pred, typ, args, what):
+def balanced_end(s, i):
+    """index just after the parenthesis that closes the one at s[i]"""
+    depth = 0
+    for j in range(i, len(s)):
+        if s[j] == "(":
+            depth += 1
+        elif s[j] == ")":
+            depth -= 1
+            if depth == 0:
+                return j + 1
+    raise TranslateError("unbalanced parentheses in %r" % s)
+
+
+def bound_expr(expr, env, mode, what):
+    """a bound expression of a validation check -> Lean.  Beyond the integer / scalar grammar it understands
+    `parameters[kw]` (optionally inside a static_cast) and, in integer expressions, `static_cast<IndexType>(E)` of a
+    floating-point expression E (truncation of a non-negative value = floor of the exact rational)."""
+    env = dict(env)
+    n = [0]
+
+    def fresh(term):
+        n[0] += 1
+        name = "__v%d" % n[0]
+        env[name] = term
+        return name
+
+    # static_cast<IndexType>( floating expression )
+    while mode == "Int":
+        m = re.search(r"static_cast\s*<\s*IndexType\s*>\s*\(", expr)
+        found = False
+        while m:
+            end = balanced_end(expr, m.end() - 1)
+            inner = expr[m.end():end - 1]
+            if "ScalarType" in inner or re.search(r"\d\.\d|\d\.(?!\w)", inner):
+                term = "(%s).floor" % bound_expr(inner, env, "Rat", what)
+                expr = expr[:m.start()] + fresh("(int)" + term) + expr[end:]
+                found = True
+                break
+            m = re.compile(r"static_cast\s*<\s*IndexType\s*>\s*\(").search(expr, m.end())
+        if not found:
+            break
+    # parameters[kw], with or without a cast around it
+    def repl(mm):
+        kw = mm.group(1)
+        if kw not in KW_FIELD:
+            raise TranslateError("%s: bound mentions unknown keyword %r" % (what, kw))
+        field, fmode = KW_FIELD[kw]
+        return fresh(("(rat)" if fmode == "Rat" else "") + "c." + field)
+    expr = re.sub(r"static_cast\s*<\s*\w+\s*>\s*\(\s*parameters\[(\w+)\]\s*\)", repl, expr)
+    expr = re.sub(r"parameters\[(\w+)\]", repl, expr)
+    return lean_expr(expr, env, mode, what)
+
+
+def check_to_lean(kw, pred, typ, args, what, env=None):
     if kw not in KW_FIELD:
         raise TranslateError("%s: validation of unknown keyword %r" % (what, kw))
     field, mode = KW_FIELD[kw]
@@ -295,7 +406,9 @@ def check_to_lean(kw, pred, typ, args, what):
     if want is None or want != mode:
         raise TranslateError("%s: predicate type %s does not fit keyword %s" % (what, typ, kw))
     v = "c." + field
-    a = [lean_expr(x, VAL_ENV, mode, what) for x in split_args(args)]
+    e = dict(VAL_ENV)
+    e.update(env or {})
+    a = [bound_expr(x, e, mode, what) for x in split_args(args)]
     if pred == "InRange" and len(a) == 2:
         return "decide (%s ≤ %s ∧ %s < %s)" % (a[0], v, v, a[1])
     if pred == "InClosedRange" and len(a) == 2:
@@ -315,8 +428,16 @@ REL = {"<": "<", ">": ">", "<=": "≤", ">=": "≥", "==": "=", "!=": "≠"}
 def validate_statements(body, what):
     """a validate() body -> list of Lean Bool terms.  Grammar: ( [if (parameters[kw] REL literal)] CHECK ; )*"""
     terms = []
+    env = {}
     rest = body.strip()
     while rest:
+        dm = re.match(r"const IndexType (\w+) = (?:static_cast<IndexType>\()?parameters\[(\w+)\]\)?;\s*", rest)
+        if dm:
+            if dm.group(2) not in KW_FIELD or KW_FIELD[dm.group(2)][1] != "Int":
+                raise TranslateError("%s: local bound to a non-integer keyword %r" % (what, dm.group(2)))
+            env[dm.group(1)] = "c." + KW_FIELD[dm.group(2)][0]
+            rest = rest[dm.end():]
+            continue
         m = CHECK.match(rest)
         guard = None
         if not m:
@@ -334,7 +455,7 @@ def validate_statements(body, what):
                 m = CHECK.match(rest)
         if not m:
             raise TranslateError("%s: statement not understood in validate(): %r" % (what, rest[:120]))
-        t = check_to_lean(m.group(1), m.group(2), m.group(3), m.group(4), what)
+        t = check_to_lean(m.group(1), m.group(2), m.group(3), m.group(4), what, env)
         terms.append(t if guard is None else "(!%s || %s)" % (guard, t))
         rest = rest[m.end():].lstrip()
         if not rest.startswith(";"):
@@ -595,8 +716,17 @@ def gen_sites(src, out):
         out.defn(prefix + "_smallest_rightCols", ["d", "skip"], E(mm.group(2), env, what=prefix), "smallest: `.rightCols(%s)` of those" % mm.group(2))
         mm = re.search(r"eigenvalues\(\)\.segment\(([^,]+), ([^)]+)\)\)", small)
         if mm:
+            env_s = dict(env)
+            env_s["solver.eigenvalues().size()"] = "n"
+            note = ""
+            # optional local: const IndexType x = std::min<IndexType>(a, b);
+            for lm in re.finditer(r"const IndexType (\w+) = std::min<IndexType>\((.+?), (.+?)\);", small):
+                a_ = E(lm.group(2).replace("solver.eigenvalues().size()", "EIGSIZE"), dict(env, EIGSIZE="n"), what=prefix)
+                b_ = E(lm.group(3).replace("solver.eigenvalues().size()", "EIGSIZE"), dict(env, EIGSIZE="n"), what=prefix)
+                env_s[lm.group(1)] = "(min %s %s)" % (a_, b_)
+                note = " with `%s`" % lm.group(0)
             out.defn(prefix + "_segment_start", ["d", "skip"], E(mm.group(1), env, what=prefix), "smallest: `eigenvalues().segment(%s, %s)` — start" % (mm.group(1), mm.group(2)))
-            out.defn(prefix + "_segment_len", ["d", "skip"], E(mm.group(2), env, what=prefix), "… and number of entries")
+            out.defn(prefix + "_segment_len", ["d", "skip", "n"], E(mm.group(2), env_s, what=prefix), "… and number of entries (n = number of eigenvalues)" + note)
         elif prefix != "rand":
             raise TranslateError("%s: eigenvalues().segment(start, n) not found" % prefix)
         return body
@@ -677,16 +807,24 @@ def gen_sites(src, out):
     e2 = dict(env)
     e2[m.group(1)] = "kk"
     out.defn("spe_ind1_write", ["kk", "j", "k"], E(m.group(2), e2, what="spe ind1 write"), "`%s[%s]`, kk < k, j < nupdates" % (inn, m.group(2)))
-    m = re.search(r"IndexType (\w+) = static_cast<IndexType>\(floor\(tapkee::uniform_random\(\) \* \(([^)]+)\)\) \+ ([^)]+)\); %s\[([^\]]+)\] = %s\[\1\];" % (idxv, inn), body)
+    m = re.search(r"IndexType (\w+) = static_cast<IndexType>\(floor\(tapkee::uniform_random\(\) \* \(([^)]+)\)\) \+ ([^)]+)\); (\w+)\[([^\]]+)\] = %s\[\1\];" % inn, body)
     if not m:
-        raise TranslateError("spe: r = floor(uniform_random() * (k - 1)) + k * j ; indices[nupdates + j] = ind1Neighbors[r] not found")
+        raise TranslateError("spe: r = floor(uniform_random() * (k - 1)) + k * j ; <partners>[…] = ind1Neighbors[r] not found")
     out.defn("spe_rand_span", ["k"], E(m.group(2), env, what="spe span"), "`floor(uniform_random() * (%s))` ranges over [0, max(span,1)) for uniform_random() in [0,1)" % m.group(2))
     out.defn("spe_r", ["f", "k", "j"], "(f + %s)" % E(m.group(3), env, what="spe r"), "`r = f + %s`, f the floor term" % m.group(3))
-    out.defn("spe_indices_write", ["nu", "j"], E(m.group(4), env, what="spe indices write"), "`%s[%s]`" % (idxv, m.group(4)))
-    m = re.search(r"ind2 = %s\.begin\(\) \+ ([^;]+);" % idxv, body)
+    target = m.group(4)
+    out.defn("spe_indices_write", ["nu", "j"], E(m.group(5), env, what="spe partner write"), "chosen partner stored in `%s[%s]`" % (target, m.group(5)))
+    if target == idxv:
+        out.defn("spe_partner_size", ["N", "nu"], "N", "… a slot of `%s` (N entries)" % idxv)
+    else:
+        mr = re.search(r"%s\.resize\(([^)]+)\);" % target, body)
+        if not mr:
+            raise TranslateError("spe: size of the partner vector %s not found" % target)
+        out.defn("spe_partner_size", ["N", "nu"], E(mr.group(1), env, what="spe partner size"), "… a slot of `%s`, `%s.resize(%s)`" % (target, target, mr.group(1)))
+    m = re.search(r"%s\.begin\(\) \+ (\w+)" % idxv, body)
     if not m:
-        raise TranslateError("spe: ind2 = indices.begin() + nupdates not found")
-    out.defn("spe_ind2_start", ["nu"], E(m.group(1), env, what="spe ind2"), "`ind2 = %s.begin() + %s`, advanced nupdates times" % (idxv, m.group(1)))
+        raise TranslateError("spe: second half `indices.begin() + nupdates` not found")
+    out.defn("spe_ind2_start", ["nu"], E(m.group(1), env, what="spe ind2"), "global strategy: partners are `%s.begin() + %s`, advanced nupdates times" % (idxv, m.group(1)))
     m = re.search(r"if \(max_iter == 0\) \{ max_iter = (\d+) \+ static_cast<IndexType>\(floor\(([\d.]+) \* N \* N\)\); if \(!global_strategy\) max_iter \*= (\d+); \}", body)
     if not m:
         raise TranslateError("spe: default max_iter not found")
@@ -711,7 +849,7 @@ def gen_sites(src, out):
     body = src.function_body("tapkee/routines/landmarks.hpp", r"DenseMatrix triangulate\(", "triangulate")
     m = re.search(r"DenseMatrix embedding\(n_vectors, target_dimension\);", body)
     m2 = re.search(r"for \(IndexType (\w+) = 0; \1 < n_landmarks; \+\+\1\) \{ \w+\[landmarks\[\1\]\] = false; embedding\.row\(landmarks\[\1\]\)\.noalias\(\) = landmarks_embedding\.first\.row\(\1\); \}", body)
-    m3 = re.search(r"for \(IndexType (\w+) = 0; \1 < ([^;]+); \+\+\1\) landmarks_embedding\.first\.col\(\1\)\.array\(\) /= landmarks_embedding\.second\(\1\);", body)
+    m3 = re.search(r"for \(IndexType (\w+) = 0; \1 < ([^;]+); \+\+\1\) (?:\{ if \(landmarks_embedding\.second\(\1\) > \w+\) )?landmarks_embedding\.first\.col\(\1\)\.array\(\) /= landmarks_embedding\.second\(\1\);", body)
     if not (m and m2 and m3):
         raise TranslateError("triangulate: row / column sites not found")
     out.defn("tri_row_hi", ["nl"], "nl", "`landmarks_embedding.first.row(i)`, `embedding.row(landmarks[i])`, i < n_landmarks")
@@ -750,13 +888,23 @@ def gen_sites(src, out):
     out.defn("tsne_force_size", ["N", "noDims"], "(N * noDims)", "`pos_f`, `neg_f` = calloc(N * D) with D = no_dims")
     out.defn("tsne_negf_offset", ["n", "noDims"], E(m2.group(1), {"n": "n", "D": "noDims"}, what="neg_f offset"),
              "`neg_f + %s`, then QT_NO_DIMS entries are written" % m2.group(1))
-    body = src.function_body(ft, r"ScalarType evaluateError\(ScalarType\* P, ScalarType\* Y, int N\)", "TSNE::evaluateError (exact)")
+    hdr = src.find(ft, r"ScalarType evaluateError\(ScalarType\* P, ScalarType\* Y, int N(?:, int (\w+))?\)", "exact evaluateError")
+    body = src.function_body(ft, r"ScalarType evaluateError\(ScalarType\* P, ScalarType\* Y, int N(?:, int \w+)?\)", "TSNE::evaluateError (exact)")
     m = re.search(r"computeSquaredEuclideanDistance\(Y, N, (\w+), DD\);", body)
     if not m:
         raise TranslateError("tsne.hpp: evaluateError -> computeSquaredEuclideanDistance(Y, N, <dims>, DD) not found")
     dims = m.group(1)
-    out.defn("tsne_exact_error_dims", ["noDims"], "(%s : Int)" % dims if dims.isdigit() else E(dims, {"D": "noDims", "no_dims": "noDims"}, what="exact error dims"),
-             "exact evaluateError reads `Y` as N x %s" % dims)
+    if dims.isdigit():
+        dims_lean = "(%s : Int)" % dims
+    elif hdr.group(1) and dims == hdr.group(1):
+        # the extra parameter must be fed with no_dims at the call site
+        run_body = src.function_body(ft, r"void run\(tapkee::DenseMatrix& X, int N, int D, ScalarType\* Y, int no_dims,", "TSNE::run")
+        if not re.search(r"evaluateError\(P\.data\(\), Y, N, no_dims\)", run_body):
+            raise TranslateError("tsne.hpp: call of the exact evaluateError does not pass no_dims")
+        dims_lean = "noDims"
+    else:
+        raise TranslateError("tsne.hpp: unexpected dimension argument %r in the exact evaluateError" % dims)
+    out.defn("tsne_exact_error_dims", ["noDims"], dims_lean, "exact evaluateError reads `Y` as N x %s" % dims)
     body = src.function_body(ft, r"void computeSquaredEuclideanDistance\(", "computeSquaredEuclideanDistance")
     m = re.search(r"dataSums\[n\] \+= \(X\[([^\]]+)\] \* X\[", body)
     if not m:
